@@ -36,9 +36,11 @@ Proof. exact parser_loops_consume. Qed.
 Theorem C20_parser_loops_count : length parser_loops = 29%nat.
 Proof. exact parser_loops_count. Qed.
 
-(* EOF-aware progress of one iteration, for 25 of the 29 loops WITHOUT any assumption about calls *)
+(* EOF-aware progress of one iteration, for 25 of the 29 loops WITHOUT any assumption about calls; the four exempted
+   loops are named by stable id (method#ordinal: parse_document#0, parse_section_marker#1, parse_section#0,
+   parse_list#0), never by source line *)
 Theorem C20_parser_loop_progress_no_contract : forall l n pos r,
-  In l parser_loops -> ~ In (pl_line l) loops_needing_contract -> (pos < n)%nat ->
+  In l parser_loops -> ~ In (pl_id l) loops_needing_contract -> (pos < n)%nat ->
   cond_val (is_eof n pos) (pl_guard l) true -> exec_b no_call n (pl_body l) pos r ->
   match r with RExit => True | RFall p | RCont p => (pos < p)%nat /\ (p < n)%nat end.
 Proof. exact parser_loop_progress_no_contract. Qed.
